@@ -12,7 +12,7 @@ def corpus(ctx):
     fam = family()
     pat = gen_conn.pattern_family()
     if ctx.quick:
-        return rng.sample(fam, 24) + [gen_conn.random_sdesc(rng) for _ in range(24)] + pat[-6:] + rng.sample(pat[:-6], 10)
+        return rng.sample(fam, 18) + [gen_conn.random_sdesc(rng) for _ in range(18)] + pat[-6:] + rng.sample(pat[:-6], 8)
     return rng.sample(fam, 180) + [gen_conn.random_sdesc(rng) for _ in range(180)] + pat
 
 
